@@ -12,7 +12,7 @@ CASE_TIMEOUT_S = 60   # bundles hold up to 22k strings (~1 s); a single hanging 
 RULE = ('language space: all strings of <=L tokens over a 28-token alphabet (BFS by length, bundled by 2-token prefix); '
         'mutation space: delete / insert any token / swap neighbours / duplicate at every character position of every '
         'valid string of the C01 level<=1 space; pumping: every <=3-token string with each token repeated 1..8 times; '
-        'deferred validation: 8 slots x 14 unresolvable values x 6 calls; non-trivial = contains a bracket or separator '
+        'deferred validation: 13 slots (incl. global rules on absent residues, termini, with an isotope label) x 14 unresolvable values x 6 calls; non-trivial = contains a bracket or separator '
         'token (language), any mutant (mutation)')
 ASSUMPTIONS = ['"an error" = any ValueError subclass (all peptacular errors derive from ValueError)',
                'is_sequence_valid must never raise, must be False for rejected text and True for text that parses to a single-chain annotation',
@@ -27,7 +27,8 @@ CORPUS_MUST_RAISE = ['Foo', 'U:99999', 'UNIMOD:xyz', 'M:notaname', 'X:99999', 'R
 # macro tokens: whole notation elements, so that short sequences reach well-formed groups followed by one odd element
 MACRO = ['PEK', 'K', '[1]', '^2', '/2', '[+Na+]', '-', '?', '(', ')', '<13C>', '<[1]@K>', '{1}', '+', '//', '[Oxidation]',
          '^', '/', '\\\\', '[']
-SLOTS = ['labile', 'static', 'unknown', 'nterm', 'r0', 'iv', 'cterm', 'rlast']
+SLOTS = ['labile', 'static', 'unknown', 'nterm', 'r0', 'iv', 'cterm', 'rlast',
+         'static:C', 'static:N-Term', 'static:C-Term', 'static+13C', 'static:C+13C']   # static:C = rule on a residue the peptide lacks
 
 
 def describe(tier):
@@ -223,13 +224,17 @@ def check(case, ctx):
         elif case.get('with') == 'before':
             mods = [[val, mult], ['Acetyl', 1]]
         slots = {slot: mods}
-        if slot == 'static':
-            slots = {'static': [{'mods': [[m[0], 1] for m in mods], 'targets': ['K']}]}
+        if slot.startswith('static'):
+            tgt = slot.split('+')[0].partition(':')[2] or 'K'
+            slots = {'static': [{'mods': [[m[0], 1] for m in mods], 'targets': [tgt]}]}
+            if slot.endswith('+13C'):
+                slots['isotope'] = ['13C']
         elif slot == 'iv':
             slots = {'iv': [[0, 2, False, mods]]}
         P = c01.build(seq, slots)
         s = pmodel.render(P, False)
         plain = p.mass(seq)
+        absent = slot.startswith('static:C') and not slot.startswith('static:C-Term')
         st, a = lib.call(p.parse, s)
         ctx.evals += 1
         if st != 'ok':
@@ -241,7 +246,12 @@ def check(case, ctx):
         for mono in (True, False):
             st, m = lib.call(p.mass, s, monoisotopic=mono)
             ctx.evals += 1
-            if st == 'ok':
+            if st == 'ok' and absent:
+                # the rule applies to no residue: a value is acceptable, but then it is the mass without the rule
+                want = p.mass(('<13C>' if slot.endswith('+13C') else '') + seq, monoisotopic=mono)
+                if not lib.close(m, want, 1e-6):
+                    ctx.fail('deferred-mass-absent-target', want, m, text=s, monoisotopic=mono)
+            elif st == 'ok':
                 ctx.fail('deferred-mass-silent', 'ValueError', m, text=s, monoisotopic=mono,
                          unmodified_mass=plain)
             elif not isinstance(m, ValueError):
@@ -254,7 +264,7 @@ def check(case, ctx):
             ctx.evals += 1
             if st == 'err' and not isinstance(v, ValueError):
                 ctx.fail('deferred-foreign-exception', 'value or ValueError', v, text=s, call=name)
-        if slot != 'static':
+        if not slot.startswith('static'):
             for name, fn in (('mod_mass', lambda: p.mod_mass(val)), ('mod_comp', lambda: p.mod_comp(val))):
                 st, v = lib.call(fn)
                 ctx.evals += 1
